@@ -41,6 +41,7 @@ type Doc struct {
 	Maps     []MapEnt
 	Sentinel int // 0 none, 1 MAPPED_LIBRARIES:, 2 --- Memory map: ---
 	Tight    bool // regions one page apart
+	Attrs    bool // the memory map defines two attributes (source=, build=) and the mapping lines refer to the first
 	WordSz   int
 	BigEnd   bool
 	SharedPC uint64 // cpu: signal-handler frame inserted at index 1 of every sample (0 = none)
@@ -79,6 +80,7 @@ func genDoc(t *rapid.T) *Doc {
 	}
 	if nm > 0 {
 		d.Sentinel = rapid.IntRange(1, 2).Draw(t, "sentinel")
+		d.Attrs = rapid.IntRange(0, 4).Draw(t, "mapattrs") == 0
 	}
 	covered := func(a uint64) bool {
 		for _, m := range d.Maps {
@@ -290,6 +292,14 @@ func genDoc(t *rapid.T) *Doc {
 	return d
 }
 
+// fileOf: the file name a mapping must end up with ($source expanded)
+func (d *Doc) fileOf(m *MapEnt) string {
+	if d.Attrs {
+		return "/home/user" + m.File
+	}
+	return m.File
+}
+
 func hexList(a []uint64) string {
 	var s []string
 	for _, x := range a {
@@ -461,7 +471,14 @@ func (d *Doc) Print() []byte {
 		b.WriteString("\n--- Memory map: ---\n")
 	}
 	if d.Sentinel != 0 {
+		if d.Attrs {
+			// attribute definitions: later lines may use $source and $build
+			b.WriteString("source=/home/user\nbuild=0123abcd\n")
+		}
 		for i, m := range d.Maps {
+			if d.Attrs {
+				m.File = "$source" + m.File
+			}
 			if m.Brief {
 				fmt.Fprintf(&b, "0x%x-0x%x %s", m.Start, m.Limit, m.File)
 				if m.Offset != 0 || m.BuildID != "" {
@@ -670,6 +687,7 @@ func check(d *Doc, o *vk.Obs) []string {
 	o.Label("kind:" + d.Kind)
 	o.LabelIf(d.Sentinel != 0, "memory-map")
 	o.LabelIf(d.Sentinel != 0 && d.Tight, "memory-map-tight")
+	o.LabelIf(d.Sentinel != 0 && d.Attrs, "memory-map-attributes")
 	if d.Kind == "cpu" && d.BigEnd && len(d.Maps) == 0 {
 		small := true
 		for _, b := range d.Print() {
@@ -794,7 +812,7 @@ func check(d *Doc, o *vk.Obs) []string {
 				}
 			}
 			switch {
-			case wm != nil && (l.Mapping == nil || l.Mapping.Start != wm.Start || l.Mapping.Limit != wm.Limit || l.Mapping.Offset != wm.Offset || l.Mapping.File != wm.File || l.Mapping.BuildID != wm.BuildID):
+			case wm != nil && (l.Mapping == nil || l.Mapping.Start != wm.Start || l.Mapping.Limit != wm.Limit || l.Mapping.Offset != wm.Offset || l.Mapping.File != d.fileOf(wm) || l.Mapping.BuildID != wm.BuildID):
 				e.Addf("%s: address %x lies in %s [%x,%x) offset %x build id %q but got mapping %+v", d.Kind, l.Address, wm.File, wm.Start, wm.Limit, wm.Offset, wm.BuildID, l.Mapping)
 			case wm == nil && l.Mapping != nil && l.Mapping.File != "":
 				e.Addf("%s: address %x lies in no listed mapping but got %q", d.Kind, l.Address, l.Mapping.File)
